@@ -354,7 +354,7 @@ pub fn streams() -> Vec<Stream> {
 pub fn def() -> PropertyDef {
     PropertyDef {
         id: "C18",
-        rule: "stream examples (complete): the 20 shipped examples with their argument / witness files and the empty map under all 40 environments. stream prune: generated programs with 1-3 extra statements that assert or branch on environment jets (check_lock_height / _time / _distance, tx_is_final, tx_lock_height, lock_time, version, current_sequence, witness-controlled branches) x up to 3 witness assignments x 4 of the 40 environments dummy_with(lock_time in {0, 1000, 499999999, 500000000, 1734967835}, sequence in {MAX, ENABLE_LOCKTIME_NO_RBF, from_height(1000), ZERO}, fee in {false,true}). Oracle (differential, no reference for the environment jets needed): verdict of satisfy(w) executed under env; satisfy_with_env(w, Some(env)) is Err iff that verdict is failure; when Ok the pruned program has the commit CMR, its encoding decodes to the same CMR, its witness nodes are well-typed and it succeeds under env; nothing panics. evaluations = (program, witness, environment) triples. Non-trivial = the unpruned program has a case node and (the triples of the case give both verdicts or the pruned program is strictly smaller); distinct by digest.",
+        rule: "stream examples (complete): the 20 shipped examples with their argument / witness files and the empty map under all 40 environments. stream destructure: 1-3 witnesses of sum-heavy types (Either / Option / tuples to depth 3 over (), bool, u1..u64) that are only taken apart by matches and patterns, with random values, optionally preceded by environment statements; cases whose failure is explained by the dependency call RedeemNode::prune alone (known finding c18:dependency-value-prune-corrupts-witness) are excluded and counted. stream prune: generated programs with 1-3 extra statements that assert or branch on environment jets (check_lock_height / _time / _distance, tx_is_final, tx_lock_height, lock_time, version, current_sequence, witness-controlled branches) x up to 3 witness assignments x 4 of the 40 environments dummy_with(lock_time in {0, 1000, 499999999, 500000000, 1734967835}, sequence in {MAX, ENABLE_LOCKTIME_NO_RBF, from_height(1000), ZERO}, fee in {false,true}). Oracle (differential, no reference for the environment jets needed): verdict of satisfy(w) executed under env; satisfy_with_env(w, Some(env)) is Err iff that verdict is failure; when Ok the pruned program has the commit CMR, its encoding decodes to the same CMR, its witness nodes are well-typed and it succeeds under env; nothing panics. evaluations = (program, witness, environment) triples. Non-trivial = the unpruned program has a case node and (the triples of the case give both verdicts or the pruned program is strictly smaller); distinct by digest.",
         assumptions: &["the Bit Machine's behaviour on the unpruned program is the reference for 'fails under env'"],
         streams,
         health: &[("prune", "pruning:ok", 300), ("prune", "pruning:error-as-expected", 100)],
